@@ -17,6 +17,7 @@ Section TableProofs.
   Variable upd_bound : B -> Z -> B.
   Variable h : Z -> Z.
   Variable cap : Z.
+  Variable unlimited : bool.
   Variable wf0 : bool.
   Variable wfThr : Z.
   Variable start : Z -> Z -> Z.
@@ -34,8 +35,8 @@ Section TableProofs.
   Hypothesis start_range : forall hc log, 0 <= log <= maxLog -> 0 <= start hc (2 ^ log) < 2 ^ log.
   Hypothesis next_range : forall i log p, 0 <= log <= maxLog -> 0 <= i < 2 ^ log -> 0 <= next i (2 ^ log) p < 2 ^ log.
   Hypothesis Binv0 : Binv b0.
-  Hypothesis Binv_upd : forall b p, Binv b -> 0 <= p -> Binv (upd_bound b p).
-  Hypothesis bound_ge : forall log b p, 0 <= log <= maxLog -> Binv b -> 0 <= p < 2 ^ log ->
+  Hypothesis Binv_upd : forall log b p, 0 <= log <= maxLog -> Binv b -> 0 <= p < 2 ^ log -> Binv (upd_bound b p).
+  Hypothesis bound_ge : forall log b p, 0 <= log <= maxLog -> Binv b -> 0 <= p < 2 ^ log -> (1 <= p -> unlimited = false) ->
       p <= decode log (upd_bound b p) /\
       (forall q, 0 <= q < 2 ^ log -> q <= decode log b -> q <= decode log (upd_bound b p)).
 
@@ -44,31 +45,31 @@ Section TableProofs.
   Notation emptyB := (emptyB B b0 wf0).
   Notation getb := (getb B b0 wf0).
   Notation setb := (setb B).
-  Notation isFull := (isFull B cap).
+  Notation isFull := (isFull B cap unlimited).
   Notation blen := (blen B).
   Notation bcount := (bcount B).
   Notation tfind := (tfind B b0 decode h wf0 start next).
   Notation probe_loop := (probe_loop B b0 wf0 next).
-  Notation add_loop := (add_loop B b0 cap wf0 next).
-  Notation tadd := (tadd B b0 upd_bound h cap wf0 wfThr start next).
+  Notation add_loop := (add_loop B b0 cap unlimited wf0 next).
+  Notation tadd := (tadd B b0 upd_bound h cap unlimited wf0 wfThr start next).
   Notation tremove := (tremove B b0 wf0).
   Notation tsetval := (tsetval B b0 wf0).
   Notation newTable := (newTable B b0 wf0).
   Notation hset := (hset B).
   Notation gfind := (gfind B b0 decode h wf0 start next).
   Notation hfind := (hfind B b0 decode h wf0 start next).
-  Notation reloc_items := (reloc_items B b0 upd_bound h cap wf0 wfThr start next).
-  Notation reloc_buckets := (reloc_buckets B b0 upd_bound h cap wf0 wfThr start next).
-  Notation reloc_gens := (reloc_gens B b0 upd_bound h cap wf0 wfThr start next).
-  Notation relocate := (relocate B b0 upd_bound h cap wf0 wfThr start next).
-  Notation add_all := (add_all B b0 upd_bound h cap wf0 wfThr start next).
+  Notation reloc_items := (reloc_items B b0 upd_bound h cap unlimited wf0 wfThr start next).
+  Notation reloc_buckets := (reloc_buckets B b0 upd_bound h cap unlimited wf0 wfThr start next).
+  Notation reloc_gens := (reloc_gens B b0 upd_bound h cap unlimited wf0 wfThr start next).
+  Notation relocate := (relocate B b0 upd_bound h cap unlimited wf0 wfThr start next).
+  Notation add_all := (add_all B b0 upd_bound h cap unlimited wf0 wfThr start next).
   Notation newLog := (newLog B logStart shift).
-  Notation hadd := (hadd B b0 upd_bound h cap wf0 wfThr start next logStart calcCapacity shift maxLog).
-  Notation hreserve := (hreserve B b0 upd_bound h cap wf0 wfThr start next logStart calcCapacity shift maxLog).
-  Notation hcopy := (hcopy B b0 upd_bound h cap wf0 wfThr start next logStart calcCapacity maxLog).
+  Notation hadd := (hadd B b0 upd_bound h cap unlimited wf0 wfThr start next logStart calcCapacity shift maxLog).
+  Notation hreserve := (hreserve B b0 upd_bound h cap unlimited wf0 wfThr start next logStart calcCapacity shift maxLog).
+  Notation hcopy := (hcopy B b0 upd_bound h cap unlimited wf0 wfThr start next logStart calcCapacity maxLog).
   Notation hclear := (hclear B b0 wf0).
-  Notation step := (step B b0 decode upd_bound h cap wf0 wfThr start next logStart calcCapacity shift maxLog).
-  Notation run := (run B b0 decode upd_bound h cap wf0 wfThr start next logStart calcCapacity shift maxLog).
+  Notation step := (step B b0 decode upd_bound h cap unlimited wf0 wfThr start next logStart calcCapacity shift maxLog).
+  Notation run := (run B b0 decode upd_bound h cap unlimited wf0 wfThr start next logStart calcCapacity shift maxLog).
 
   (* the probe path of a hash code: path 0 = GetStartBucketIndex, path (p+1) = GetNextBucketIndex (path p) _ (p+1) *)
   Fixpoint path (hc bc : Z) (p : nat) : Z :=
@@ -80,7 +81,7 @@ Section TableProofs.
     ti_log : 0 <= tlog t <= maxLog;
     ti_len : length (tbs t) = Z.to_nat (bcount t);
     ti_b : forall i, 0 <= i < bcount t ->
-           blen (getb t i) <= cap /\ (isFull (getb t i) = true -> wasFull (getb t i) = true) /\ Binv (bound (getb t i));
+           (unlimited = false -> blen (getb t i) <= cap) /\ (isFull (getb t i) = true -> wasFull (getb t i) = true) /\ Binv (bound (getb t i));
     ti_path : forall i k v, 0 <= i < bcount t -> In (k, v) (items (getb t i)) ->
         exists p : nat, path (h k) (bcount t) p = i /\ Z.of_nat p < bcount t /\
           Z.of_nat p <= decode (tlog t) (bound (getb t (start (h k) (bcount t)))) /\
@@ -288,6 +289,9 @@ Section TableProofs.
     assert (Hbc : bcount t' = bcount t) by (unfold HashModel.bcount; rewrite Hlog; reflexivity).
     assert (Hidx : 0 <= idx < bcount t) by (apply path_range; auto).
     assert (Hi0 : 0 <= i0 < bcount t) by (apply start_range; auto).
+    assert (Hprobe : 1 <= Z.of_nat p -> unlimited = false).
+    { intros Hp1. assert (Hq : (0 < p)%nat) by lia. specialize (Hfull 0%nat Hq). unfold HashModel.isFull in Hfull.
+      destruct unlimited; [discriminate|reflexivity]. }
     split; [|split; auto].
     constructor.
     - rewrite Hlog; auto.
@@ -297,11 +301,12 @@ Section TableProofs.
       unfold HashModel.blen, HashModel.isFull, HashModel.blen in *. rewrite Hi, Hw, Hb.
       destruct (Z.eqb_spec j idx) as [Ej|Ej].
       + subst j. rewrite app_length; simpl.
-        apply Z.leb_gt in Hnf.
-        split; [lia|]. split.
-        * intros Hf. apply Z.leb_le in Hf. apply orb_true_iff. right. apply Z.leb_le. lia.
-        * destruct (Z.eqb_spec idx i0); auto. apply Binv_upd; auto. lia.
-      + split; auto. split; auto. destruct (Z.eqb_spec j i0); auto. apply Binv_upd; auto. lia.
+        split; [|split].
+        * intros Hu. rewrite Hu in *. apply Z.leb_gt in Hnf. lia.
+        * destruct unlimited; [discriminate|]. apply Z.leb_gt in Hnf.
+          intros Hf. apply Z.leb_le in Hf. apply orb_true_iff. right. apply Z.leb_le. lia.
+        * destruct (Z.eqb_spec idx i0); auto. apply (Binv_upd (tlog t)); auto. unfold HashModel.bcount in Hp; lia.
+      + split; auto. split; auto. destruct (Z.eqb_spec j i0); auto. apply (Binv_upd (tlog t)); auto. unfold HashModel.bcount in Hp; lia.
     - intros j k v Hj Hin. rewrite Hbc in *. destruct (Hg j Hj) as [Hi _]. rewrite Hi in Hin.
       assert (Hwf_mono : forall q, 0 <= q < bcount t -> wasFull (getb t q) = true -> wasFull (getb t' q) = true).
       { intros q Hq Hw. destruct (Hg q Hq) as [_ [Hw' _]]. rewrite Hw'. destruct (q =? idx); auto. rewrite Hw. reflexivity. }
@@ -315,7 +320,7 @@ Section TableProofs.
           destruct (Hg _ Hs) as [_ [_ Hb]]. rewrite Hb.
           destruct (Z.eqb_spec (start (h k) (bcount t)) i0); auto.
           destruct (ti_b _ I _ Hs) as [_ [_ HB]].
-          destruct (bound_ge (tlog t) (bound (getb t (start (h k) (bcount t)))) (Z.of_nat p) Hl HB) as [G1 G2]; [unfold HashModel.bcount in Hp; lia|].
+          destruct (bound_ge (tlog t) (bound (getb t (start (h k) (bcount t)))) (Z.of_nat p) Hl HB) as [G1 G2]; [unfold HashModel.bcount in Hp; lia|exact Hprobe|].
           apply G2; [unfold HashModel.bcount in P2; lia | exact P3].
         - intros q Hq. apply Hwf_mono; [apply path_range; auto|apply P4; auto]. }
       destruct (Z.eqb_spec j idx) as [Ej|Ej]; [|auto].
@@ -324,7 +329,7 @@ Section TableProofs.
       exists p. split; auto. split; auto. split.
       + rewrite Hlog. destruct (Hg _ Hi0) as [_ [_ Hb]]. fold i0. rewrite Hb. rewrite Z.eqb_refl.
         destruct (ti_b _ I _ Hi0) as [_ [_ HB]].
-        destruct (bound_ge (tlog t) (bound (getb t i0)) (Z.of_nat p) Hl HB) as [G1 G2]; [unfold HashModel.bcount in Hp; lia|].
+        destruct (bound_ge (tlog t) (bound (getb t i0)) (Z.of_nat p) Hl HB) as [G1 G2]; [unfold HashModel.bcount in Hp; lia|exact Hprobe|].
         exact G1.
       + intros q Hq. apply Hwf_mono; [apply path_range; auto|].
         apply (ti_b _ I); [apply path_range; auto|]. apply Hfull; auto.
@@ -360,7 +365,8 @@ Section TableProofs.
     - intros j Hj. rewrite Hbc in Hj. destruct (Hs j Hj) as [S1 [S2 [S3 S4]]].
       destruct (ti_b _ I j Hj) as [Hc [Hfw HB]].
       unfold HashModel.blen, HashModel.isFull, HashModel.blen in *. rewrite S3, S4.
-      split; [lia|]. split; auto. intros Hf. apply Hfw. apply Z.leb_le in Hf. apply Z.leb_le. lia.
+      split; [intros Hu; specialize (Hc Hu); lia|]. split; auto. destruct unlimited; [discriminate|].
+      intros Hf. apply Hfw. apply Z.leb_le in Hf. apply Z.leb_le. lia.
     - intros j k v Hj Hin. rewrite Hbc in *. destruct (Hs j Hj) as [S1 _].
       assert (Hk : In k (map fst (items (getb t j)))). { apply S1. apply in_keys. eauto. }
       apply in_keys in Hk. destruct Hk as [v0 Hin0].
@@ -455,7 +461,7 @@ Section TableProofs.
     - exact Hl.
     - unfold HashModel.newTable, HashModel.bcount. simpl. apply repeat_length.
     - intros i Hi. rewrite G. unfold HashModel.blen, HashModel.isFull, HashModel.blen. simpl.
-      split; [lia|]. split; auto. intros Hf. apply Z.leb_le in Hf. lia.
+      split; [lia|]. split; auto. destruct unlimited; [discriminate|]. intros Hf. apply Z.leb_le in Hf. lia.
     - intros i k v Hi Hin. rewrite G in Hin. simpl in Hin. contradiction.
   Qed.
 
@@ -993,9 +999,9 @@ Section TableProofs.
         intro Hin. apply Hno. apply (Permutation_in _ (Permutation_map fst (Permutation_sym P))). exact Hin.
     - (* reserve *)
       destruct (hreserve s n bud) as [s1|] eqn:E; intros H; inversion H; subst; [right|left; auto].
-      destruct (hreserve_spec _ _ _ _ I E) as [I1 P1]. split; auto. split; auto. rewrite P1. exact P.
+      destruct (hreserve_spec _ _ _ _ I E) as [I1 P1]. split; [split; auto; rewrite P1; exact P|simpl; auto].
     - (* clear *)
-      intros H; inversion H; subst. right. destruct (hclear_spec s shrink I) as [I1 E1]. split; auto. split; auto. rewrite E1. reflexivity.
+      intros H; inversion H; subst. right. destruct (hclear_spec s shrink I) as [I1 E1]. split; [split; auto; rewrite E1; reflexivity|simpl; auto].
     - (* traverse *)
       intros H; inversion H; subst. right. split; auto. simpl.
       destruct (Z.eqb_spec (count s') 0) as [E0|E0].
@@ -1014,7 +1020,7 @@ Section TableProofs.
         rewrite (Permutation_length P). reflexivity.
     - (* copy *)
       destruct (hcopy s) as [s1|] eqn:E; intros H; inversion H; subst; [right|left; auto].
-      destruct (hcopy_spec _ _ I E) as [I1 P1]. split; auto. split; auto. rewrite P1. exact P.
+      destruct (hcopy_spec _ _ I E) as [I1 P1]. split; [split; auto; rewrite P1; exact P|simpl; auto].
   Qed.
 
   Lemma out_equiv_refl x : out_equiv x x.
@@ -1030,19 +1036,107 @@ Section TableProofs.
       destruct (step_refines _ _ _ _ _ HR E) as [[Ex Es]|[HR1 Ho]].
       + subst. destruct (IH s m HR) as [A C].
         destruct (run s os) as [s2 xs] eqn:Er. simpl in *.
-        destruct (spec_run m os xs) as [m' ys] eqn:Es. simpl in *. split; auto.
+        destruct (spec_run m os xs) as [m' ys] eqn:Es. simpl in *. split; auto. constructor; auto. reflexivity.
       + destruct (spec_step m o) as [m1 y] eqn:Esp. simpl in *.
         destruct (IH s1 m1 HR1) as [A C].
         destruct (run s1 os) as [s2 xs] eqn:Er. simpl in *.
         assert (Hx : is_exn x = false \/ x = RExn) by (destruct x; simpl; auto).
         destruct Hx as [Hx|Hx].
         * rewrite Hx. destruct (spec_run m1 os xs) as [m' ys] eqn:Es. simpl in *. split; auto.
-        * subst x. simpl in Ho. subst y. simpl.
-          (* the implementation threw although the spec step is defined: by step_refines the state then still refines m1,
-             and it also refines m (unchanged outputs); we keep the strong statement by noting x = RExn forces the left case *)
-          exfalso. clear - E HR Esp. revert E.
-          destruct o; simpl; repeat match goal with |- context [match ?e with _ => _ end] => destruct e end; intros H; inversion H; subst;
-            simpl in Esp; repeat match goal with H : context [if ?e then _ else _] |- _ => destruct e end; inversion Esp.
+        * subst x. exfalso. clear - Ho Esp. destruct o; simpl in Esp;
+            repeat match goal with H : context [if ?e then _ else _] |- _ => destruct e end; inversion Esp; subst; simpl in Ho; discriminate.
   Qed.
 
 End TableProofs.
+
+(* ================= packaged statements (used by Properties_C01.v) ================= *)
+Record ModelOK (B : Type) (b0 : B) (decode : Z -> B -> Z) (upd_bound : B -> Z -> B) (cap : Z) (unlimited : bool) (wfThr : Z)
+    (start : Z -> Z -> Z) (next : Z -> Z -> Z -> Z) (logStart : Z) (shift : Z -> Z) (maxLog : Z) (Binv : B -> Prop) : Prop := {
+  ok_cap : 1 <= cap;
+  ok_logStart : 0 <= logStart;
+  ok_shift : forall bc, 0 <= shift bc;
+  ok_thr : wfThr <= cap;
+  ok_start : forall hc log, 0 <= log <= maxLog -> 0 <= start hc (2 ^ log) < 2 ^ log;
+  ok_next : forall i log p, 0 <= log <= maxLog -> 0 <= i < 2 ^ log -> 0 <= next i (2 ^ log) p < 2 ^ log;
+  ok_b0 : Binv b0;
+  ok_upd : forall log b p, 0 <= log <= maxLog -> Binv b -> 0 <= p < 2 ^ log -> Binv (upd_bound b p);
+  ok_bound : forall log b p, 0 <= log <= maxLog -> Binv b -> 0 <= p < 2 ^ log -> (1 <= p -> unlimited = false) ->
+      p <= decode log (upd_bound b p) /\
+      (forall q, 0 <= q < 2 ^ log -> q <= decode log b -> q <= decode log (upd_bound b p))
+}.
+
+Section Packaged.
+  Variable B : Type.
+  Variable b0 : B.
+  Variable decode : Z -> B -> Z.
+  Variable upd_bound : B -> Z -> B.
+  Variable h : Z -> Z.
+  Variable cap : Z.
+  Variable unlimited : bool.
+  Variable wf0 : bool.
+  Variable wfThr : Z.
+  Variable start : Z -> Z -> Z.
+  Variable next : Z -> Z -> Z -> Z.
+  Variable logStart : Z.
+  Variable calcCapacity : Z -> Z.
+  Variable shift : Z -> Z.
+  Variable maxLog : Z.
+  Variable Binv : B -> Prop.
+  Hypothesis OK : ModelOK B b0 decode upd_bound cap unlimited wfThr start next logStart shift maxLog Binv.
+
+  Notation Inv' := (Inv B b0 decode h cap unlimited wf0 start next maxLog Binv).
+  Notation R' := (R B b0 decode h cap unlimited wf0 start next maxLog Binv).
+  Notation step' := (step B b0 decode upd_bound h cap unlimited wf0 wfThr start next logStart calcCapacity shift maxLog).
+  Notation run' := (run B b0 decode upd_bound h cap unlimited wf0 wfThr start next logStart calcCapacity shift maxLog).
+  Notation hfind' := (hfind B b0 decode h wf0 start next).
+
+  Theorem hash_inv_init : Inv' (hinit B).
+  Proof. apply hinit_inv. Qed.
+
+  Theorem hash_step_refines : forall s m o s' x, R' s m -> step' s o = (s', x) ->
+    (x = RExn /\ s' = s) \/ (R' s' (fst (spec_step m o)) /\ out_equiv x (snd (spec_step m o))).
+  Proof. destruct OK. intros. eapply step_refines; eauto. Qed.
+
+  Theorem hash_inv_step : forall s o, Inv' s -> Inv' (fst (step' s o)).
+  Proof.
+    intros s o I. destruct (step' s o) as [s' x] eqn:E. simpl.
+    assert (HR : R' s (hall B s)) by (split; auto).
+    destruct (hash_step_refines _ _ _ _ _ HR E) as [[_ Es]|[[I' _] _]]; subst; auto.
+  Qed.
+
+  Theorem find_iff_spec : forall s, Inv' s -> forall k v,
+    (exists gi idx pos, hfind' s k = Some (gi, idx, pos, v)) <-> In (k, v) (hall B s).
+  Proof.
+    destruct OK. intros s I k v. split.
+    - intros [gi [idx [pos E]]]. eapply hfind_in; eauto.
+    - intros Hin. eapply hfind_complete; eauto.
+  Qed.
+
+  Theorem find_eq_spec_lookup : forall s, Inv' s -> forall k,
+    match hfind' s k with Some (_, _, _, v) => Some v | None => None end = sp_find (hall B s) k.
+  Proof.
+    destruct OK. intros s I k. destruct (hfind' s k) as [[[[gi idx] pos] v]|] eqn:E.
+    - symmetry. apply sp_find_in; [apply I|]. eapply hfind_in; eauto.
+    - symmetry. apply sp_find_notin. eapply hfind_none; eauto.
+  Qed.
+
+  Theorem traversal_perm : forall s, Inv' s ->
+    Permutation (traverse B s) (hall B s) /\ NoDup (map fst (traverse B s)) /\ count s = Z.of_nat (length (traverse B s)).
+  Proof.
+    intros s I. pose proof (traverse_perm B s) as P. split; auto. split.
+    - eapply NoDup_keys_perm; [apply Permutation_sym; exact P|apply I].
+    - rewrite (Permutation_length P). apply I.
+  Qed.
+
+  Theorem hash_refines_all_histories : forall os,
+    Inv' (fst (run' (hinit B) os)) /\
+    Permutation (hall B (fst (run' (hinit B) os))) (fst (spec_run [] os (snd (run' (hinit B) os)))) /\
+    Forall2 out_equiv (snd (run' (hinit B) os)) (snd (spec_run [] os (snd (run' (hinit B) os)))).
+  Proof.
+    destruct OK. intros os.
+    assert (HR : R' (hinit B) []) by (split; [apply hinit_inv|reflexivity]).
+    destruct (run_refines B b0 decode upd_bound h cap unlimited wf0 wfThr start next logStart calcCapacity shift maxLog Binv
+                ok_cap0 ok_logStart0 ok_shift0 ok_thr0 ok_start0 ok_next0 ok_b1 ok_upd0 ok_bound0 os _ _ HR) as [[I P] F].
+    auto.
+  Qed.
+End Packaged.
